@@ -31,6 +31,7 @@ def main(argv: t.Optional[t.List[str]] = None) -> int:
     ap.add_argument('prop')
     ap.add_argument('--tier', default=os.environ.get('VERIF_TIER') or 'quick', choices=['quick', 'thorough'])
     ap.add_argument('--no-evidence', action='store_true')
+    ap.add_argument('--summary', action='store_true')
     args = ap.parse_args(argv)
     seed = int(os.environ.get('VERIF_SEED', '0') or 0)
     prop = args.prop
@@ -62,6 +63,21 @@ def main(argv: t.Optional[t.List[str]] = None) -> int:
         for m in res['internal'][:5]:
             print(f'INTERNAL-ERROR property={prop}: {m}')
         return 3
+    if args.summary:
+        import collections
+        cl = collections.Counter()
+        ex = {}
+        for v in viols:
+            k = (v.get('suite'), v['symptom'], ' '.join(v.get('tags', [])))
+            cl[k] += 1
+            ex.setdefault(k, v)
+        for k, n in sorted(cl.items(), key=lambda kv: repr(kv[0])):
+            v = ex[k]
+            print(n, k)
+            print('     e.g.', json.dumps(v.get('case', {}).get('spec', {}).get('nodes', {}), default=repr)[:600])
+            print('     plan', v.get('case', {}).get('plans'), 'collab', v.get('case', {}).get('collab'), 'cancel', v.get('case', {}).get('cancel'))
+            print('     ', str(v.get('detail'))[:300])
+        return 1 if viols else 0
     printed = 0
     seen_keys: t.Set[tuple] = set()
     replay_dir = os.path.join(env.VERIF, 'replays')
